@@ -698,11 +698,11 @@ func genCase(r *Rng, wild bool) tcase {
 	if t.gas == 0 {
 		t.gas = 1 // runtime.setDefaults turns a zero GasLimit into MaxUint64
 	}
-	if memGrow && t.gas > 30000 {
-		t.gas = uint64(21000 + r.Intn(9000)) // keeps the model's list-based memory small
-	}
 	if r.Chance(1, 10) {
 		t.gas = uint64(5000000 + r.Intn(3000000)) // enough for a 24 kB code deposit
+	}
+	if memGrow && t.gas > 30000 {
+		t.gas = uint64(21000 + r.Intn(9000)) // keeps the model's list-based memory small
 	}
 	if r.Chance(1, 6) {
 		t.kind = 1
@@ -719,16 +719,16 @@ func genCase(r *Rng, wild bool) tcase {
 }
 
 func gen(r *Rng, tier string, emit func(Sx)) {
-	n := 330
+	n := 270
 	if tier == "thorough" {
-		n = 6000
+		n = 4000
 	}
 	// the depth-1025 recursion and stack-limit templates, once each per kind
 	for _, k := range []byte{0xf1, 0xf4, 0xfa, 0xf2} {
 		t := genCase(r.Fork(), false)
 		t.kind, t.fork = 0, 0
 		t.pre[1].code = tmplRecurse(k)
-		t.to, t.value, t.gas = t.pre[1].addr, new(big.Int), 1<<34
+		t.to, t.value, t.gas = t.pre[1].addr, new(big.Int), 1<<36
 		emit(t.sx())
 		if tier != "thorough" {
 			break
@@ -743,10 +743,15 @@ func gen(r *Rng, tier string, emit func(Sx)) {
 	}
 	for i := 0; i < n; i++ {
 		t := genCase(r.Fork(), i%5 == 4)
+		// the generator runs the implementation once: cases that execute more than 300000
+		// instructions (cheap endless loops under a huge gas limit) are dropped, they only cost time
+		o := execute(t, modelFork[t.fork%3])
+		if o.overrun || o.steps > 300000 {
+			continue
+		}
 		emit(t.sx())
 		if i%3 == 0 {
 			// exact gas +-1: measure the gas used by this run and re-emit at the boundary
-			o := execute(t, modelFork[t.fork%3])
 			if o.panicked == "" && o.gasLeft <= t.gas {
 				used := t.gas - o.gasLeft
 				for _, d := range []int64{0, -1, 1} {
